@@ -17,6 +17,10 @@ func init() {
 	register("C08", "cluster-member-replaced", c08Replaced)
 	register("C08", "cluster-settle-timeout-sole-instance", c08SettleTimeout)
 	register("C08", "cluster-settle-timeout-pair", c08SettleTimeout)
+	// C01: start-up settling is bounded - an instance whose settling ends by the settle timeout notifies
+	register("C01", "cluster-settle-timeout-sole-instance", c08SettleTimeout)
+	register("C01", "cluster-short-settle-timeout-sole-instance", c08SettleTimeout)
+	register("C01", "cluster-short-settle-timeout-pair", c08SettleTimeout)
 	register("C08", "cluster-reload-while-email-in-flight", c08ReloadInflight)
 	register("C08", "cluster-oversized-log-entries", c08Oversized)
 	multiplicity["C08/cluster-oversized-log-entries"] = 2
@@ -329,16 +333,20 @@ func c08SettleTimeout(s *sc) {
 	s.must(err, "sink")
 	defer sink.Close()
 	var ms []*member
-	a := startMember(s, sink, "am-a", nil, 0, clusterConf())
+	settle := time.Duration(0) // as the acceptance tests use it
+	if strings.Contains(s.c.Kind, "short") {
+		settle = 300 * time.Millisecond // shorter than the seconds of stable membership that settling needs
+	}
+	a := startMember(s, sink, "am-a", nil, settle, clusterConf())
 	ms = append(ms, a)
 	if strings.HasSuffix(s.c.Kind, "pair") {
-		ms = append(ms, startMember(s, sink, "am-b", []*member{a}, 0, clusterConf()))
+		ms = append(ms, startMember(s, sink, "am-b", []*member{a}, settle, clusterConf()))
 	}
 	tStart := time.Now()
 	if !converged(s, ms, slack+late) {
 		for _, m := range ms {
 			if cs, _ := m.in.ClusterStatus(); cs.Status != "ready" {
-				s.violate("cluster-never-ready-after-settle-timeout", "settle timeout 0: %.1fs after the start %s still reports cluster status %q", time.Since(tStart).Seconds(), m.name, cs.Status)
+				s.violate("cluster-never-ready-after-settle-timeout", "settle timeout %s: %.1fs after the start %s still reports cluster status %q", settle, time.Since(tStart).Seconds(), m.name, cs.Status)
 				return
 			}
 		}
